@@ -77,7 +77,7 @@ inductive Op
   deriving Repr
 
 inductive Kind
-  | logon | input | cmd (v : String) | netdead | hb | co (tag : String) | reset | it (tag : String) | cleanup
+  | logon | input | cmd (v : String) | netdead | hb | co (tag : String) | reset | it (tag : String) | cleanup | prompt
   deriving DecidableEq, Repr
 
 inductive ConnB | ok | err | rej
@@ -93,7 +93,7 @@ inductive Ev
   | start | cycle (n : Nat) | exitLoop | exitShutdown
   | tConnect (k : Nat) | tLogon (o : Oid) | tInput (o : Oid) (s : String) | tCmd (o : Oid) (v : String)
   | tNetdead (o : Oid) | tHb (o : Oid) | tCo (o : Oid) (tag : String) | tReset (o : Oid) | tCleanup (o : Oid)
-  | tIt (o : Oid) (tag : String) (line : String) | xIt (o : Oid) (tag : String)
+  | tIt (o : Oid) (tag : String) (line : String) | xIt (o : Oid) (tag : String) | tPrompt (o : Oid)
   | xErr (who : String) | xCerr (o : Oid) | xDest (o t : Oid) | xCo (o : Oid) (tag : String) | xHb (o : Oid) (n : Nat)
   | meh (caught : Bool) (msg : String)
   | hbs (l : List String) | out (name : String) (text : String) | slots (n : Nat)
@@ -444,6 +444,7 @@ def kindEv (o : Oid) : Kind → Ev
   | .co tag => .tCo o tag
   | .reset => .tReset o
   | .cleanup => .tCleanup o
+  | .prompt => .tPrompt o
   | .it tag => .tIt o tag ""
 
 /-- run hook `k` of object `o` with nesting fuel -/
@@ -639,10 +640,16 @@ def commandStage (rh : HookFn) (w : W) (cg : Oid) (line : String) : R :=
 /-- `ip->input_to` -/
 def inputToOf (w : W) (id : Nat) : Option String := match findConn w id with | some c => c.inputTo | none => none
 
-/-- print_prompt (ip): the prompt is written only while no input_to() is pending; the master is not a user object,
-    nothing reaches the socket -/
-def promptStage (w : W) (cg : Oid) (id : Nat) : W :=
-  if cg = .master then w else if (inputToOf w id).isSome then w else addOut w cg ">_"
+/-- print_prompt (ip): only while no input_to() is pending the user object's write_prompt() is applied (unprotected:
+    an error unwinds to backend()); the record is re-validated (IP_VALID) before flush_message (ip) touches it.  The
+    scripted write_prompt() writes the prompt text itself.  The master is not a user object: nothing happens. -/
+def promptStage (rh : HookFn) (w : W) (cg : Oid) (id : Nat) : R :=
+  if cg = .master then (w, false) else
+  if (inputToOf w id).isSome then (w, false) else
+  let r := rh (emit w (.tPrompt cg)) cg .prompt
+  if r.2 then (r.1, true) else
+  if r.1.inter cg ≠ some id then (r.1, false) else               -- IP_VALID
+  (addOut (useConn r.1 id) cg ">_", false)
 
 /-- the ordinary path of process_user_command(): process_input, VALIDATE_IP, the command, VALIDATE_IP, the prompt -/
 def plainCommand (rh : HookFn) (w : W) (cg : Oid) (id : Nat) (line : String) : W × Bool × Bool :=
@@ -653,7 +660,7 @@ def plainCommand (rh : HookFn) (w : W) (cg : Oid) (id : Nat) (line : String) : W
   let r2 := commandStage rh r1.1 cg line
   if r2.2 then (r2.1, true, true) else
   if r2.1.inter cg ≠ some id then (r2.1, true, false) else               -- VALIDATE_IP
-  (promptStage (useConn r2.1 id) cg id, true, false)
+  ((promptStage rh (useConn r2.1 id) cg id).1, true, (promptStage rh (useConn r2.1 id) cg id).2)
 
 /-- call_function_interactive(): the sentence is freed and `ip->input_to` cleared BEFORE the callback runs (it may
     call input_to() again); the line goes to the callback instead of process_input / the command parser -/
@@ -661,7 +668,7 @@ def inputToCommand (rh : HookFn) (w : W) (cg : Oid) (id : Nat) (line : String) (
   let r := rh (emit (mapConn w id clearInputTo) (.tIt cg tag line)) cg (.it tag)
   if r.2 then (r.1, true, true) else
   if r.1.inter cg ≠ some id then (r.1, true, false) else                 -- VALIDATE_IP
-  (promptStage (useConn r.1 id) cg id, true, false)
+  ((promptStage rh (useConn r.1 id) cg id).1, true, (promptStage rh (useConn r.1 id) cg id).2)
 
 /-- process_user_command() once get_user_command() has picked a record: (state, processed, uncaught error) -/
 def serveCommand (rh : HookFn) (w : W) (c0 : Conn) : W × Bool × Bool :=
